@@ -6,14 +6,15 @@ import zipfile
 
 from . import gen
 
-UNI = ["a", "b", "ä", "😀", "日本", 'q"t', "a b", "c", ""]
+UNI = ["a", "b", "ä", "😀", "日本", 'q"t', "a b", "c", "", "lone\udc80surrogate"]
 KINDS = ["k1", "k2", "k3"]
 FLAVOURS = ["plain_str", "str_ids", "str_hook", "obj_cb", "obj_derived", "obj_default", "typed_obj_default", "dw", "typed_str", "typed_str_ids",
             "typed_obj", "typed_derived", "fs"]
 
 KEY_MAPS = {"default": True, "off": False,
             "custom": {"data_id": "i", "str": "s", "kind": "k", "type": "t", "name": "n", "age": "a"}}
-VALUE_MAPS = {"default": True, "off": False, "custom": {"type": ["person", "dept"], "title": [f"d{i}" for i in range(64)]}}
+VALUE_MAPS = {"default": True, "off": False,
+              "custom": {"type": ["person", "dept"], "title": [f"d{i}" for i in range(64)], "age": list(range(60, 10, -1))}}  # age: int values
 COMPRESSIONS = {"off": False, "true": True, "stored": zipfile.ZIP_STORED, "deflated": zipfile.ZIP_DEFLATED,
                 "bzip2": zipfile.ZIP_BZIP2, "lzma": zipfile.ZIP_LZMA}
 TARGETS = ["path", "stream"]
@@ -66,6 +67,12 @@ def ser_cb(node, data):
         if d.age is not None:
             data["age"] = d.age
     return data
+
+
+def ser_cb_none(node, data):
+    """The documented alternative: fill the dict in place and return None."""
+    ser_cb(node, data)
+    return None
 
 
 def deser_cb(parent, data):
@@ -184,7 +191,7 @@ def build_source(flavour, f, rng):
         else:
             cls = TypedTree if typed else Tree
             t = cls("src", calc_data_id=calc_cb)
-            save_kw["mapper"] = ser_cb
+            save_kw["mapper"] = ser_cb_none if rng.random() < 0.35 else ser_cb
             load_kw["mapper"] = deser_cb_consuming if rng.random() < 0.4 else deser_cb
         pool = [(FalsyObj if rng.random() < 0.25 else Obj)(f"nm{i}ä", rng.choice(["person", "dept"]), rng.choice([f"g{i}", 1000 + i]),
                                                            rng.choice([None, 20 + i]))
